@@ -87,7 +87,7 @@ contract("gherkin.token_matcher_markdown.GherkinInMarkdownTokenMatcher.match_Sce
          ])
 
 
-def step_keywords(self):
+def md_step_keywords(self):
     return (self.dialect.spec["given"] + self.dialect.spec["when"] + self.dialect.spec["then"]
             + self.dialect.spec["and"] + self.dialect.spec["but"])
 
@@ -96,9 +96,9 @@ contract("gherkin.token_matcher_markdown.GherkinInMarkdownTokenMatcher.match_Ste
          args=dict(self="MdMatcher", token="Token"), returns=Bool, modifies=TOKEN_FIELDS,
          ensures=[
              clause("bullet-and-step-keyword", lambda self, token, result: result == md_hit(
-                 BULLET, step_keywords(self), "", token.line._trimmed_line_text), serves=["C19"]),
+                 BULLET, md_step_keywords(self), "", token.line._trimmed_line_text), serves=["C19"]),
              clause("fields", lambda self, token, result: implies(result, title_fields(
-                 self, token, "StepLine", BULLET, step_keywords(self), "")), serves=["C19"]),
+                 self, token, "StepLine", BULLET, md_step_keywords(self), "")), serves=["C19"]),
          ])
 
 # match_FeatureLine: a header line with a feature keyword; the flag remembers whether one was matched.  (When no
